@@ -321,10 +321,7 @@ def run(chk):
     rows = [x for x in rows if x.get('k') == 'arith']
     chk.extra['small_world'] = {'format_pairs': len(rows)}
     chk.exhaustive = True
-    obs = []
-    for part in core.parallel_map(SMALL[pid], [(row, pid, tier, i) for i, row in enumerate(rows)], chunksize=2):
-        obs += part
     n = 480 if tier == 'quick' else 8000
-    for part in core.parallel_map(WIDE[pid], [(chk.seed * 1000 + i, pid, n // core.NPROC + 1) for i in range(core.NPROC)]):
-        obs += part
-    return obs
+    per = max(1, n // (core.NPROC * (1 if tier == 'quick' else 8)))
+    wide = [(chk.seed * 1000 + i, pid, per) for i in range(n // per)]
+    return core.stream(SMALL[pid], [(row, pid, tier, i) for i, row in enumerate(rows)], WIDE[pid], wide, tier, step=120)
